@@ -15,7 +15,9 @@ _numtypes = (int, np.int64, float, np.float64)
 def _float(x):
     # values are held as floating point (or symbolic) arrays: sums, products and
     # negation of integer arrays wrap around silently (int8, uint8 ...)
-    if isinstance(x, np.ndarray) and x.dtype.kind in 'iub':
+    # and half / single precision arrays fail later (numpy.linalg refuses
+    # float16) or lose the accuracy of every computed result
+    if isinstance(x, np.ndarray) and (x.dtype.kind in 'iub' or (x.dtype.kind == 'f' and x.dtype.itemsize < 8)):
         return x.astype(np.float64)
     return x
 
